@@ -45,6 +45,8 @@ func init() {
 			out = append(out, Instance{Scenario: "c08_rollback", Params: mustJSON(RollbackParams{}), Bound: 0, Shards: 8, Note: "a restart answered with a rollback: every event above the checkpointed position is delivered (the first unsettled one is not skipped)"})
 			out = append(out, Instance{Scenario: "c01_finite_end", Params: mustJSON(struct{}{}), Bound: 0, Note: "finite mode: streams end cleanly while acknowledgements are withheld, then save and exit"})
 			out = append(out, Instance{Scenario: "pipe", Params: mustJSON(PipeParams{Mode: "gen", Alphabet: []string{"M", "Mbefore", "Ebefore"}, Depth: 4, Ops: []string{"deliver0", "deliver1", "ackold", "commit"}, SkipUntil: true, CrashEnd: true}), Bound: 0, Shards: 4, Note: "skipUntil configured: events it removes never carry the position past an unacknowledged event"})
+			out = append(out, Instance{Scenario: "c02_twogroups", Params: mustJSON(struct{}{}), Bound: 0, Note: "two consumer groups in one process: the stored checkpoint of a group names a position THAT group's consumer settled"})
+			out = append(out, Instance{Scenario: "reopen_life", Params: mustJSON(LifeParams{Oracle: "position", Segs: 2}), Bound: 0, Shards: 8, Note: "events the server sends again after a transient end / fail-over / rollback while their first copies are still unacknowledged: the position (and the next save) stays at the furthest ACKNOWLEDGED event"})
 			out = append(out, Instance{Scenario: "c01_closewindow", Params: mustJSON(struct{}{}), Bound: 0, Note: "a save inside the close phase of a rebalance / shutdown while the server keeps sending: the stored position never passes a document the consumer was not shown"})
 			out = append(out, Instance{Scenario: "c01_concsave", Params: mustJSON(struct{}{}), Bound: 2, Shards: 8, Note: "the concurrent per-vBucket writes of one save under every schedule within the bound"})
 			out = append(out, Instance{Scenario: "pipe_tornfile", Params: mustJSON(struct{}{}), Bound: 0, Note: "crash inside os.WriteFile of the file backend: every prefix class of the JSON file"})
@@ -72,6 +74,8 @@ func init() {
 				{Scenario: "pipe", Params: mustJSON(PipeParams{Mode: "gen", Alphabet: []string{"M", "Mhighcas", "Dhighcas", "Mshort"}, Depth: d, Ops: ops}), Bound: 0, Shards: 4, Note: "CAS values with the top bit set; user keys that are proper prefixes of a reserved prefix"},
 				{Scenario: "pipe", Params: mustJSON(PipeParams{Mode: "gen", Alphabet: []string{"M", "Mhighcas", "Mbefore"}, Depth: d, Ops: ops, SkipUntil: true}), Bound: 0, Shards: 4, Note: "skipUntil with CAS values that have the top bit set (far in the future, never older)"},
 				{Scenario: "pipe", Params: mustJSON(PipeParams{Mode: "gen", Alphabet: coll, Depth: d + 1, Ops: ops, Colls: true}), Bound: 0, Shards: 8},
+				{Scenario: "pipe", Params: mustJSON(PipeParams{Mode: "gen", Alphabet: []string{"M", "Mc1", "Mresc1", "Dtxnc2", "Mres"}, Depth: d, Ops: ops, Colls: true}), Bound: 0, Shards: 4, Note: "keys under the reserved prefixes in NAMED collections (checkpoints / transaction records kept in a streamed collection) are filtered like in _default"},
+				{Scenario: "c03_ephemeral", Params: mustJSON(struct{}{}), Bound: 0, Note: "an ephemeral bucket (nothing is ever persisted; rollback mitigation is switched off for it although it is enabled in the configuration): the first session and the session after a rebalance deliver every event"},
 				{Scenario: "pipe", Params: mustJSON(PipeParams{Mode: "gen", Alphabet: append(append([]string{}, coll...), "Minfix", "Dinfix", "Mres"), Depth: d, Ops: ops, Colls: false}), Bound: 0, Shards: 4},
 				{Scenario: "c08_rollback", Params: mustJSON(RollbackParams{}), Bound: 0, Shards: 4, Note: "the documented rollback filter: nothing at or below the position already reached, everything above it"},
 				{Scenario: "c03_conc", Params: mustJSON(ConcParams{}), Bound: 2, Shards: 8, Note: "three vBuckets on two nodes streaming concurrently, all schedules within the bound"},
